@@ -245,3 +245,43 @@ func zzRemoval(kind string) {
 
 func VH_C07_delete() { zzRemoval("delete") }
 func VH_C07_drop()   { zzRemoval("drop") }
+
+// VH_C07_buy: buying or upgrading a plan (for oneself, no referral, price cut to an arbitrary amount)
+// carries the space already used over to the new plan record and never sells less than that.
+func VH_C07_buy() {
+	zzRatioGrid = []int64{25}
+	e := zzSetup()
+	zzverif.AssumeNoKeysWithPrefix("rns", "Names/value/")
+	zzverif.AssumeNoKeysWithPrefix("storage", types.PaymentGaugeKeyPrefix)
+	zzverif.Assume(e.p.PricePerTbPerMonth == 8)
+	zzverif.Override(zzCostFn, func(k Keeper, ctx sdk.Context, gbs int64, hours int64) sdk.Int {
+		return sdk.NewInt(zzverif.NondetRange("storage.cost", 0, 1<<60))
+	})
+	creator := zzverif.NondetAddr("creator")
+	msg := types.MsgBuyStorage{Creator: creator, ForAddress: creator, DurationDays: zzverif.NondetRange("days", 0, 100000),
+		Bytes: zzverif.NondetInt64("bytes"), PaymentDenom: "ujkl", Referral: ""}
+	payer, _ := sdk.AccAddressFromBech32(creator)
+	zzverif.Assume(zzverif.And(!zzverif.IsModuleAddr(payer), !zzverif.Blocked(payer)))
+	pre, had := e.k.GetStoragePaymentInfo(e.ctx, creator)
+	if had {
+		zzverif.Assume(zzBand(pre))
+	}
+	err, pan := zzverif.Deliver(func() error { _, er := e.srv.BuyStorage(sdk.WrapSDKContext(e.ctx), &msg); return er })
+	post, has := e.k.GetStoragePaymentInfo(e.ctx, creator)
+	if !zzverif.Ok(err, pan) {
+		zzverif.Assert(has == had && (!has || zzSamePay(post, pre)), "C07/failed-purchase-leaves-the-plan-unchanged")
+		return
+	}
+	zzverif.Cover("C07/buy-succeeds")
+	zzverif.Assert(has, "C07/purchase-leaves-a-plan")
+	if !has {
+		return
+	}
+	used := int64(0)
+	if had {
+		zzverif.Cover("C07/buy-over-an-existing-plan")
+		used = pre.SpaceUsed
+	}
+	zzverif.Assert(post.SpaceUsed == used, "C07/purchase-carries-the-space-used")
+	zzverif.Assert(zzverif.And(post.SpaceAvailable == msg.Bytes, zzBand(post)), "C07/purchase-never-sells-less-than-the-space-used")
+}
